@@ -218,6 +218,79 @@ theorem sSs_count (a : Ans) (inF : Bool) (env : Env) (ss : SuffixList) :
       (eS inF env s ++ eSs inF env rest).count a + (dS inF env s ++ dSs inF env rest).count a
     simp only [List.count_append, sSs_count a inF env rest]; omega
 
+
+/-! the walk of an `until` condition and what is read afterwards list the same answers as the eager read and the descent -/
+mutual
+theorem tr_count (a : Ans) (inF : Bool) (env : Env) : (e : Expr) →
+    (tE inF env e).count a + (rE inF env e).count a = (eE inF env e).count a + (dE inF env e).count a
+  | .paren _ e => tr_count a inF env e
+  | .un _ _ e => tr_count a inF env e
+  | .bin _ l _ r => by
+    show (tE inF env l ++ tE inF env r).count a + (rE inF env l ++ rE inF env r).count a =
+      (eE inF env l ++ eE inF env r).count a + (dE inF env l ++ dE inF env r).count a
+    have h1 := tr_count a inF env l
+    have h2 := tr_count a inF env r
+    simp only [List.count_append]; omega
+  | .func _ _ body => by
+    show (sBody env none body).count a + ([] : List Ans).count a = ([] : List Ans).count a + (sBody env none body).count a
+    omega
+  | .call (.mk _ p ss) => by
+    show (eP inF env p ++ dP inF env p ++ sSs inF env ss).count a + ([] : List Ans).count a =
+      (eP inF env p ++ eSs inF env ss).count a + (dP inF env p ++ dSs inF env ss).count a
+    simp only [List.count_append, List.count_nil, sSs_count]; omega
+  | .tbl _ fs => trFs_count a inF env fs
+  | .var (.name t) => by
+    show ([] : List Ans).count a + (sRead inF env t).count a = (sRead inF env t).count a + ([] : List Ans).count a
+    omega
+  | .var (.expr _ p ss) => by
+    show (tP inF env p ++ sSs inF env ss).count a + (rP inF env p).count a =
+      (eP inF env p ++ eSs inF env ss).count a + (dP inF env p ++ dSs inF env ss).count a
+    have h := trP_count a inF env p
+    simp only [List.count_append, sSs_count]; omega
+  | .dots t => by
+    show ([] : List Ans).count a + (sRead inF env t).count a = (sRead inF env t).count a + ([] : List Ans).count a
+    omega
+  | .nil _ => rfl
+  | .true_ _ => rfl
+  | .false_ _ => rfl
+  | .num _ => rfl
+  | .str _ _ _ => rfl
+  | .unsupported _ => rfl
+theorem trP_count (a : Ans) (inF : Bool) (env : Env) : (p : Prefix) →
+    (tP inF env p).count a + (rP inF env p).count a = (eP inF env p).count a + (dP inF env p).count a
+  | .name t => by
+    show ([] : List Ans).count a + (sRead inF env t).count a = (sRead inF env t).count a + ([] : List Ans).count a
+    omega
+  | .expr e => tr_count a inF env e
+theorem trFs_count (a : Ans) (inF : Bool) (env : Env) : (fs : FieldList) →
+    (tFs inF env fs).count a + (rFs inF env fs).count a = (eFs inF env fs).count a + (dFs inF env fs).count a
+  | .nil => rfl
+  | .cons (.exprKey _ k v) rest => by
+    show ((tE inF env k ++ tE inF env v) ++ tFs inF env rest).count a + ((rE inF env k ++ rE inF env v) ++ rFs inF env rest).count a =
+      ((eE inF env k ++ eE inF env v) ++ eFs inF env rest).count a + ((dE inF env k ++ dE inF env v) ++ dFs inF env rest).count a
+    have h1 := tr_count a inF env k
+    have h2 := tr_count a inF env v
+    have h3 := trFs_count a inF env rest
+    simp only [List.count_append]; omega
+  | .cons (.nameKey _ _ v) rest => by
+    show (tE inF env v ++ tFs inF env rest).count a + (rE inF env v ++ rFs inF env rest).count a =
+      (eE inF env v ++ eFs inF env rest).count a + (dE inF env v ++ dFs inF env rest).count a
+    have h2 := tr_count a inF env v
+    have h3 := trFs_count a inF env rest
+    simp only [List.count_append]; omega
+  | .cons (.noKey v) rest => by
+    show (tE inF env v ++ tFs inF env rest).count a + (rE inF env v ++ rFs inF env rest).count a =
+      (eE inF env v ++ eFs inF env rest).count a + (dE inF env v ++ dFs inF env rest).count a
+    have h2 := tr_count a inF env v
+    have h3 := trFs_count a inF env rest
+    simp only [List.count_append]; omega
+  | .cons (.unsupported _) rest => by
+    show (([] : List Ans) ++ tFs inF env rest).count a + (([] : List Ans) ++ rFs inF env rest).count a =
+      (([] : List Ans) ++ eFs inF env rest).count a + (([] : List Ans) ++ dFs inF env rest).count a
+    have h3 := trFs_count a inF env rest
+    simp only [List.count_append, List.count_nil]; omega
+end
+
 section
 
 mutual
@@ -476,8 +549,9 @@ theorem rStmt_count (s : Stmt) (o : Out) (c : Ctx) (env : Env) :
     refine ⟨?_, rfl⟩
     obtain ⟨h1, h2⟩ := rBlock_count b o { c with depth := c.depth + 1 } env
     show (log (rExpr (rBlock o { c with depth := c.depth + 1 } env b).1 c (rBlock o { c with depth := c.depth + 1 } env b).2 cond)).count a =
-      (log o).count a + ((sBlock c.inFunction env b).1 ++ dE c.inFunction (sBlock c.inFunction env b).2 cond ++
-        eE c.inFunction (sBlock c.inFunction env b).2 cond).count a
+      (log o).count a + ((sBlock c.inFunction env b).1 ++ tE c.inFunction (sBlock c.inFunction env b).2 cond ++
+        rE c.inFunction (sBlock c.inFunction env b).2 cond).count a
+    have htr := tr_count a c.inFunction (sBlock c.inFunction env b).2 cond
     rw [rExpr_count cond, h1, h2]; simp only [List.count_append]; omega
   | if_ _ cond b elifs els =>
     refine ⟨?_, rfl⟩
